@@ -240,21 +240,49 @@ def run(ctx):
         ctx.violation("S5", f, "slot-iteration", "the serializer does not iterate the full args_definition", node=f.node)
     if slot_loop:
         skips = [x for x in walk_no_nested(slot_loop[0]) if isinstance(x, ast.Continue)]
+        # the write of the tag itself (first-level statement of the `"tag" in atype` branch) does not count as "value written"
+        tag_ifs = [i for i in walk_no_nested(slot_loop[0]) if isinstance(i, ast.If) and norm(i.test).replace('"', "'") == "'tag' in atype"]
+        tag_writes = set()
+        for i in tag_ifs:
+            for st_ in i.body:
+                if isinstance(st_, ast.Expr) and isinstance(st_.value, ast.Call) and st_.value in writes:
+                    tag_writes.add(id(st_.value))
+        nbad = 0
         for sk in skips:
             nd = cfg.nodes_for(sk)[0]
 
             def absent(fc):
                 e, pol = fact_atom(fc)
                 cp = cmp_parts(e)
-                return bool(cp and cp[1] in ("In", "NotIn") and "arguments" in norm(cp[2]) and ((cp[1] == "NotIn") == pol))
+                return bool(cp and cp[1] in ("In", "NotIn") and norm(cp[2]).endswith("arguments") and ((cp[1] == "NotIn") == pol))
 
             def handled(m):
                 return m.kind == "stmt" and isinstance(m.ast, ast.Expr) and isinstance(m.ast.value, ast.Call) and (
-                    m.ast.value in writes or call_name(m.ast.value) == "tosieve")
-            if cfg.guarded(nd, absent, establish=handled):
+                    (m.ast.value in writes and id(m.ast.value) not in tag_writes and m.ast.value.args
+                     and const_value(ctx.program, f, m.ast.value.args[0]) != " ")
+                    or call_name(m.ast.value) == "tosieve")
+            # within one iteration: start the query at the loop head by treating the tag write as a reset
+            def kill(m):
+                return m.kind == "stmt" and isinstance(m.ast, ast.Expr) and isinstance(m.ast.value, ast.Call) and id(m.ast.value) in tag_writes
+            if cfg.guarded(nd, absent, kill_pred=kill, establish=handled):
                 continue
-            ctx.violation("S5", f, "slot-skipped", "a slot present in arguments can be skipped without being written", node=sk)
-        ctx.holds("S5", "%d `continue` in the slot loop, each after `slot not present` or after the slot was written" % len(skips))
+            nbad += 1
+            ctx.violation("S5", f, "slot-skipped", "a slot (or a tag's parameter) that is present can be skipped without being written: the "
+                          "`continue` at line %d is not restricted to `name not in arguments / extra_arguments`" % sk.lineno, node=sk,
+                          witness='`header :COUNT "ge" ...` or `vacation :seconds 0`: the tag is printed without its parameter')
+        if not nbad:
+            ctx.holds("S5", "%d `continue` in the slot loop, each after a membership test `slot not present` or after the value was written" % len(skips))
+    # position of the last test of a list is found by identity: Command must not define __eq__ if .index() is used
+    uses_index = any(isinstance(c, ast.Call) and call_name(c) == "index" and c.args and isinstance(c.func.value, ast.Name) and c.func.value.id in valvars
+                     for c in walk_no_nested(f.node))
+    if uses_index:
+        eqs = [c.name for c in ctx.program.all_classes() if ctx.program.is_subclass(c, "Command") and ("__eq__" in c.methods)]
+        if eqs:
+            ctx.violation("S5", f, "index-with-eq", "the serializer finds the last test of a list with list.index(), but %s defines __eq__: a test equal "
+                          "to an earlier one is taken for the earlier one" % eqs, node=f.node,
+                          witness="`anyof (true, true)` is printed as `anyof (true, true, )`")
+        else:
+            ctx.holds("S5", "list.index() on tests is identity-based (no Command class defines __eq__)")
     child_loop = [x for x in fors if "children" in norm(x.iter)]
     if child_loop and isinstance(child_loop[0].iter, ast.Attribute) and any(
             isinstance(c, ast.Call) and call_name(c) == "tosieve" for c in ast.walk(child_loop[0])):
